@@ -105,6 +105,8 @@ def batch_entry(modname, cache, pkgkind, seed, frm, count, progress):
         if pfd is not None:
             os.pwrite(pfd, b"%12d" % i, 0)
         r = mod.execute(h)
+        if hasattr(mod, "aux_digest"):
+            res.setdefault("aux", {})[i] = mod.aux_digest(h)
         res["runs"] += 1
         res["ops"] += len(h["ops"])
         for k, v in r.get("counters", {}).items():
@@ -134,6 +136,26 @@ def batch_entry(modname, cache, pkgkind, seed, frm, count, progress):
     if pfd is not None:
         os.close(pfd)
     return res
+
+
+def aux_entry(modname, cache, pkgkind, seed, frm, count):
+    """Second configuration of a check (e.g. NumPy made unimportable for the library): per-history digests only."""
+    p = os.path.join(cache, pkgkind)
+    if p not in sys.path:
+        sys.path.insert(0, p)
+    mod = _load(modname)
+    out = {}
+    for i in range(frm, frm + count):
+        h = mod.gen_history(core.Streams(core.derive(seed, mod.PROP, i)))
+        out[i] = mod.aux_digest(h)
+    return out
+
+
+def aux_one_entry(modname, cache, pkgkind, history):
+    p = os.path.join(cache, pkgkind)
+    if p not in sys.path:
+        sys.path.insert(0, p)
+    return _load(modname).aux_digest(history)
 
 
 def exec_entry(modname, cache, pkgkind, history):
@@ -256,6 +278,7 @@ class Runner:
         try:
             done, wall = core.fanout_isolated("sim.sessions", "batch_entry", tasks, task_wall=getattr(mod, "TASK_WALL", 3000), stop_when=stop_when)
             runs = ops = 0
+            aux_first = {}
             known_seen = {}
             cnt = {}
             hashes = set()
@@ -279,6 +302,7 @@ class Runner:
                         raise core.HarnessError("%s worker died (history %d in flight) but the history alone does not reproduce it: %s" % (PROP, idx, r["stderr"][-1500:]))
                     continue
                 runs += r["runs"]; ops += r["ops"]
+                aux_first.update(r.get("aux", {}))
                 for kid, ent in r.get("known", {}).items():
                     e0 = known_seen.setdefault(kid, {"count": 0, "index": ent["index"], "history": ent["history"], "violation": ent["violation"]})
                     e0["count"] += ent["count"]
@@ -351,6 +375,40 @@ class Runner:
                     raise core.HarnessError("%s minimised replay does not reproduce in a fresh process: %s\n%s" % (PROP, path, (p.stdout + p.stderr)[-1500:]))
                 self.log("[%s] violation %s minimised to %d ops: %s" % (PROP, sig, len(small["ops"]), path))
                 new_violations.append(path)
+        # ---- second configuration (e.g. the library without NumPy): same histories, digests must agree ----
+        aux_info = None
+        if hasattr(mod, "AUX_ENV") and aux_first:
+            idxs = sorted(aux_first)
+            step = getattr(mod, "AUX_BATCH", 1000)
+            atasks = [(self.modname, self.cache, self.pkgkind, seed, f, min(step, idxs[-1] + 1 - f)) for f in range(idxs[0], idxs[-1] + 1, step)]
+            adone, awall = core.fanout_isolated("sim.sessions", "aux_entry", atasks, task_wall=3000, env=mod.AUX_ENV)
+            compared = nsub = 0
+            mism = []
+            for t, r in adone:
+                if "crashed" in r:
+                    raise core.HarnessError("%s second-configuration worker died: %s" % (PROP, r["stderr"][-1500:]))
+                for i, dg in r.items():
+                    if i not in aux_first:
+                        continue
+                    compared += 1
+                    nsub += len(dg)
+                    if dg != aux_first[i]:
+                        mism.append(i)
+            aux_info = {"histories_compared": compared, "ops_compared": nsub, "mismatches": len(mism), "env": mod.AUX_ENV, "wall_s": round(awall, 2)}
+            self.log("[%s] second configuration %r: %d histories / %d ops compared, %d mismatches" % (PROP, mod.AUX_ENV, compared, nsub, len(mism)))
+            for i in mism[:3]:
+                h = mod.gen_history(core.Streams(core.derive(seed, PROP, i)))
+                a = self.iso("aux_one_entry", h)
+                done2, _ = core.fanout_isolated("sim.sessions", "aux_one_entry", [(self.modname, self.cache, self.pkgkind, h)], nproc=1, env=mod.AUX_ENV)
+                b = done2[0][1]
+                if a == b:
+                    raise core.HarnessError("%s configuration mismatch of history %d did not reproduce" % (PROP, i))
+                k = next((j for j, (x, y) in enumerate(zip(a, b)) if x != y), 0)
+                opi = a[k][0] if k < len(a) else None
+                small = {"setup": h["setup"], "ops": [h["ops"][opi]] if opi is not None else h["ops"], "aux": True, "property": PROP,
+                         "violation": {"class": "configuration-dependence", "op": 0, "detail": "op %r gives %r with NumPy importable and %r with %r" % (h["ops"][opi] if opi is not None else None, a[k] if k < len(a) else None, b[k] if k < len(b) else None, mod.AUX_ENV)},
+                         "found_at": {"seed": seed, "index": i}}
+                new_violations.append(core.save_replay(PROP, "%s-%d-configuration-dependence" % (seed, i), small))
         wall_total = time.time() - t_start
         if not samples:
             samples = [mod.gen_history(core.Streams(core.derive(seed, PROP, 0)))]
@@ -368,12 +426,22 @@ class Runner:
             "known_findings_matched": sorted({k["id"] for k in known_hits}),
             "histories_with_violations": len(viols),
         }
+        if aux_info:
+            coverage["second_configuration"] = aux_info
         core.write_evidence(PROP, tier, seed, coverage, wall_total, len(new_violations), mod.ASSUMPTIONS)
         core.report_and_exit(PROP, new_violations, known_hits)
 
     def replay(self, path):
         with open(path) as f:
             h = json.load(f)
+        if h.get("aux"):
+            a = self.iso("aux_one_entry", h)
+            done2, _ = core.fanout_isolated("sim.sessions", "aux_one_entry", [(self.modname, self.cache, self.pkgkind, h)], nproc=1, env=self.mod.AUX_ENV)
+            if a != done2[0][1]:
+                print("VIOLATION property=%s replay=%s class=configuration-dependence %r vs %r" % (self.mod.PROP, path, a, done2[0][1]))
+                sys.exit(1)
+            print("OK replay passes")
+            sys.exit(0)
         r = self.execute_iso(h)
         want = (h.get("violation") or {}).get("class")
         got = [v for v in r["violations"] if want is None or v["class"] == want]
